@@ -75,10 +75,21 @@ class Check(PropertyCheck):
                   "(three of the `internal` texts C49's dumper_output_clean takes as hypothesis; dumper_output_clean_sym restates that theorem without them). "
                   "AAAA: str(IPv6Address)/IPv6Address(text) transcribed (Model/C50_V6.lean, reader = C22.parseV6): ip6_dec_enc, ip6_rejects_marker, "
                   "transcribed_codec_laws_6 and dns_view_roundtrip_transcribed_6 - the guarded DNS-view round trip with every text codec (A, AAAA, NS, CNAME, PTR, "
-                  "TXT) a transcription; parameters left: YAML, Python's idna codec for ACE labels (law-free), the HTTPS part (law proved in https_reencode_exact). The property sentence is checked "
+                  "TXT) a transcription; parameters left: YAML, Python's idna codec for ACE labels (law-free), the HTTPS part; https_codec_laws / all_transcribed_codec_laws / "
+                  "dns_view_roundtrip_all_transcribed plug the https_records transcription in as that part (the JSON object travels as an opaque code), so no codec "
+                  "law is assumed - only the domain-name law inside HTTPS rdata (NameLaw) and the three guards. The message-level functions the dns_* theorems are about "
+                  "(toJson, fromJson, rrToJson/rrFromJson, the type dispatch of realCodec6) are executed by the driver op `msg` and compared with DNSMessage.to_json / "
+                  "from_json(to_json) of the real code on every generated DNS message without an HTTPS record or ACE label. The property sentence is checked "
                   "directly as an oracle: every registered view x random and structured bodies x message kinds: no exception, "
                   "clean text; DNS: reencode_message(prettify_message(m)) decoded by mitmproxy.dns equals the original.")
-    level_note = ("partial: the DNS round trip is proved only under the guard (reserved = 0, every NS/CNAME/PTR/TXT rdata decodable, "
+    level_note = ("The clause `returns text without raising` is carried by the ORACLE (prettify_message raised ... / did not return) and the `pm` tie, not by a theorem with content: "
+                  "prettifyText is total by construction and the only failure it has as an input is a raising VIEW (ViewOut.raised); a raising raw view in the auto fallback, a raising "
+                  "get_data, an unknown explicit view name or an exception while formatting the error text are not inputs of the model. "
+                  "The classifiers of F-C50c / F-C50d predict the excused re-encoding with the implementation's own yaml_dumps / yaml_loads / from_json (the findings ARE facts about that "
+                  "library pipeline), so a change inside those functions moves the prediction with it; fromStr models from_str only on to_str outputs (String.toNat? is narrower than int()). "
+                  "The whole-message tie `msg` leaves out messages with an HTTPS record (DataJ.obj is opaque; HTTPS is tied by the `https` op) and ACE labels; prettifyDns/reencodeDns add only "
+                  "the YAML parameter and prettifyText (tied by `pm`) around toJson/fromJson. "
+                  "partial: the DNS round trip is proved only under the guard (reserved = 0, every NS/CNAME/PTR/TXT rdata decodable, "
                   "no U+0085 in the YAML, YAML load o dump identity) — the excluded classes are genuine defects recorded as F-C50a/b/c/d. Assumed (parameters "
                   "with laws, validated by the tie, not proved): ruamel YAML dump/load (the only library law left); "
                   "the UTF-8 (TXT), domain-name (NS/CNAME/PTR, Python's idna codec for ACE labels left as a law-free parameter), IPv4 (A) and IPv6 (AAAA) "
@@ -92,7 +103,7 @@ class Check(PropertyCheck):
             "GraphQL, protobuf, gRPC, msgpack, MQTT, multipart, urlencoded, PNG/GIF/JPEG/ICO headers, zip, DNS wire, socket.io, WBXML, HTTP/3 "
             "frames; 20% mutated with control bytes; 10% random); dns cases: random DNS messages (all header bits, known and unknown "
             "types/classes, valid and invalid rdata, text with YAML-significant and control characters) x transport dns/udp/tcp/http, "
-            "hand-packed (uncompressed) wire form; plus LARGE messages of 17-45 KiB (many TXT/A records, names up to 253 bytes, owner names "
+            "hand-packed (uncompressed) wire form; every rendering is produced and re-encoded twice (history: caches must not change the result);  plus LARGE messages of 17-45 KiB (many TXT/A records, names up to 253 bytes, owner names "
             "re-used after first occurring before and after byte offset 16384). "
             "distinct = distinct case; non-trivial = body non-empty.")
     budget = {"quick": 9000, "thorough": 150000}
@@ -479,6 +490,38 @@ class Check(PropertyCheck):
                 "rr": [[[r.name, r.type, r.class_, r.ttl, r.data.hex()] for r in sec] for sec in (m.answers, m.authorities, m.additionals)]}
 
     @staticmethod
+    def msg_tie(m0):
+        """whole-message tie: (driver line, expected reply) for `DNSMessage.to_json()` and `from_json(to_json())` of the real code against
+        the model's toJson / fromJson over `realCodec6` (every text codec computed by the model).  None when the message is outside the
+        domain the driver's codec covers: an HTTPS record (its JSON object is opaque in `DataJ`) or an ACE label in NS/CNAME/PTR rdata."""
+        import copy
+        from mitmproxy import dns
+        rrs = list(m0.answers) + list(m0.authorities) + list(m0.additionals)
+        if any(r.type == 65 or (r.type in (2, 5, 12) and b"xn--" in r.data) for r in rrs): return None
+        b = lambda x: "1" if x else "0"
+        toks = ["msg", str(m0.id), b(m0.query), str(m0.op_code), b(m0.authoritative_answer), b(m0.truncation), b(m0.recursion_desired),
+                b(m0.recursion_available), str(m0.reserved), str(m0.response_code), str(len(m0.questions))]
+        for q in m0.questions: toks += [cps(q.name), str(q.type), str(q.class_)]
+        toks += [str(len(m0.answers)), str(len(m0.authorities)), str(len(m0.additionals))]
+        for r in rrs: toks += [cps(r.name), str(r.type), str(r.class_), str(r.ttl), hx(r.data)]
+        j = m0.to_json()
+        sec = lambda l: ";".join(l) if l else "-"
+        rj = lambda x: f"{cps(x['name'])}/{x['type']}/{x['class']}/{x['ttl']}/" + ("obj" if isinstance(x["data"], dict) else "s:" + cps(x["data"]))
+        left = (f"id={j['id']} q={b(j['query'])} op={j['op_code']} aa={b(j['authoritative_answer'])} tc={b(j['truncation'])} rd={b(j['recursion_desired'])} "
+                f"ra={b(j['recursion_available'])} rc={j['response_code']} qs={sec([cps(q['name']) + '/' + q['type'] + '/' + q['class'] for q in j['questions']])} "
+                f"an={sec([rj(x) for x in j['answers']])} ns={sec([rj(x) for x in j['authorities']])} ar={sec([rj(x) for x in j['additionals']])}")
+        try:
+            m1 = dns.DNSMessage.from_json(copy.deepcopy(j))
+            rr = lambda x: f"{cps(x.name)}/{x.type}/{x.class_}/{x.ttl}/{hx(x.data)}"
+            right = (f"id={m1.id} q={b(m1.query)} op={m1.op_code} aa={b(m1.authoritative_answer)} tc={b(m1.truncation)} rd={b(m1.recursion_desired)} "
+                     f"ra={b(m1.recursion_available)} z={m1.reserved} rc={m1.response_code} "
+                     f"qs={sec([cps(q.name) + '/' + str(q.type) + '/' + str(q.class_) for q in m1.questions])} "
+                     f"an={sec([rr(x) for x in m1.answers])} ns={sec([rr(x) for x in m1.authorities])} ar={sec([rr(x) for x in m1.additionals])}")
+        except Exception:
+            right = "raise"
+        return [" ".join(toks), left + " | " + right]
+
+    @staticmethod
     def prim_dec(r):
         """result of the type-specific decoder used by ResourceRecord._data_json: ('s', text) | ('obj', json) | None"""
         from mitmproxy.net.dns import https_records
@@ -638,6 +681,8 @@ class Check(PropertyCheck):
             try:
                 res = contentviews.prettify_message(message, flow, case["view"])
                 obs.update({"text": cps(res.text), "view_name": res.view_name, "is_str": isinstance(res.text, str)})
+                res2 = contentviews.prettify_message(message, flow, case["view"])      # HISTORY: rendered a second time
+                obs["bad2"] = bad_chars(res2.text) if isinstance(res2.text, str) else [-1]
             except BaseException as e:  # property: "returns text without raising"
                 obs["exc"] = type(e).__name__ + ": " + str(e)[:120]
                 return obs
@@ -694,6 +739,15 @@ class Check(PropertyCheck):
                     back = back[2:]
                 obs["stage"] = "decode"
                 obs["back"] = self.key(dns.DNSMessage.unpack(back)); obs["stage"] = "done"
+                # HISTORY: the same unedited rendering re-encoded again (and rendered again) must give the same message again
+                try:
+                    again = contentviews.reencode_message(res.text, msg, f, "dns")
+                    res2 = contentviews.prettify_message(msg, f, "dns")
+                    again2 = contentviews.reencode_message(res2.text, msg, f, "dns")
+                    strip = (lambda b: b[2:]) if mode in ("tcp", "http") else (lambda b: b)
+                    obs["again"] = "same" if strip(again) == back and strip(again2) == back else "differs"
+                except Exception as e2:
+                    obs["again"] = "raised " + type(e2).__name__ + ": " + str(e2)[:120]
             except Exception as e:
                 obs["exc"] = type(e).__name__ + ": " + str(e)[:160]
             # model inputs per record: primitive decoder / setter results and what the code computed
@@ -709,6 +763,7 @@ class Check(PropertyCheck):
                              "dj": "obj" if isinstance(dj, dict) else "s:" + cps(dj),
                              "enc": "none" if pe is None else "b:" + hx(pe), "back": bk})
             obs["recs"] = recs
+            obs["msg"] = self.msg_tie(m0)
             obs["diffs"] = [list(x) for x in self.dns_diffs(case, obs)]     # classified once, here
             return obs
         raise ValueError(kind)
@@ -813,12 +868,14 @@ class Check(PropertyCheck):
             if obs["exc"]: return [f"prettify_message raised {obs['exc']} (view {case['view']!r}, {case['msg']})"]
             if not obs["is_str"]: return ["prettify_message returned a non-str text"]
             t = "".join(chr(int(x)) for x in obs["text"].split(",")) if obs["text"] != "-" else ""
-            bad = bad_chars(t)
+            bad = bad_chars(t) or obs.get("bad2", [])
             return [f"view {obs['view_name']!r} ({case['view']!r}, {case['msg']}) text contains control characters {[hex(b) for b in bad[:5]]}"] if bad else []
         # "Re-encoding an unedited DNS-view rendering of a DNS message yields a message with the same header fields,
         #  questions and records as the original."
         if obs.get("hang"): return [f"DNS view did not return: {obs['exc']}"]
         fails = [d for _, d in self.dns_diffs(case, obs)]
+        if obs.get("again", "same") != "same":
+            fails.append(f"re-encoding the same unedited DNS-view rendering a second time: {obs['again']}")
         if obs.get("bad"): fails.append(f"DNS view text contains control characters {[hex(b) for b in obs['bad'][:5]]}")
         return fails
 
@@ -864,6 +921,7 @@ class Check(PropertyCheck):
             for r in obs.get("recs", []):
                 ls.append(f"dj {r['t']} {r['data']} {r['dec']} {r['tn']}")
                 ls.append(f"dd {r['t']} {r['dj']} {r['enc']}")
+            if obs.get("msg"): ls.append(obs["msg"][0])
             return ls or None
         return None
 
@@ -884,6 +942,7 @@ class Check(PropertyCheck):
             out = []
             for r in obs["recs"]:
                 out.append(r["dj"]); out.append("raise" if r["back"] == "raise" else "ok " + r["back"])
+            if obs.get("msg"): out.append(obs["msg"][1])
             return out
 
     def classify(self, case, obs):
@@ -910,6 +969,7 @@ class Check(PropertyCheck):
             out.append("dns-diff:" + (fid or "UNKNOWN"))
         if obs["stage"] == "done" and obs["orig"] == obs["back"]: out.append("dns-roundtrip-ok")
         for r in obs.get("recs", []): out.append(f"rr:{NAMED.get(r['t'], 'other')}:{'dec' if r['dec'] != 'none' else 'nodec'}")
+        out.append("msg-tie:" + ("yes" if obs.get("msg") else "outside-domain"))
         return out
 
     def neighbours(self, case, rng):
